@@ -4,7 +4,7 @@ import common, zoo as zoolib, filelevel, workloads, shapes
 from common import Pair, proof_stage, rebuild_tools, build_pqh, build_zoo, Lock, TRUSTED_BASE
 
 MODULE = "PQ.Props.C14"
-THEOREMS = []
+THEOREMS = ["PQ.C14." + t for t in ("excluded_contributes_nothing", "getFields_insert", "getChildren_congr'", "excluded_inert", "excluded_inert_many", "multi_name_dropped", "embed_eq_inline_fuel", "embed_eq_inline", "upper_not_primitive", "tag_dash_anywhere", "tag_dash_excluded")]
 
 # ---------------------------------------------------------------- abstract declarations
 # type expr: ("id", name) | ("star", t) | ("arr", t, fixedlen) | ("map", k, v) | ("chan", t) | ("func", [(pname, t)...]) |
